@@ -1,5 +1,5 @@
 """Per-property checks.  Each returns an Outcome; `check` prints the verdict lines and writes the evidence."""
-import os, sys, json, random, itertools, collections, time
+import os, sys, json, random, itertools, collections, time, subprocess
 import vlib, gram, gengram, pipeline, prun
 from vlib import Infra
 
@@ -221,6 +221,8 @@ def classify_reject(rj):
             if exp[0] == 'call' and act[:4] == exp[:4]:
                 return 'position'
         kinds = {exp[0]} | ({act[0]} if act else set())
+        if act and act[0].startswith('oob'):
+            return 'oob'
         if kinds & {'tval', 'call'}:
             return 'functor'
         if kinds & {'synerr', 'unexp'}:
@@ -989,6 +991,169 @@ def check_C04(tier, seed):
     out.assumptions = ['TLC + JSON reader', 'reference = per-term derivative languages, longest match, least index (spec/LexCheck.tla, Tables!LexRefAt); pattern meaning = RegexSyntax!Doc',
                        'segment abstraction refined by the real rows', 'K1 attribution as for C03']
     return out
+
+
+# ======================================================================================= C06
+def check_C06(tier, seed):
+    import rx as rxl
+    out = Outcome()
+    rng = random.Random(seed)
+    cat = {g.name: g for g in catalogue()}
+    names = ['left_rec', 'right_rec_empty', 'paren', 'paren_list', 'expr_strat', 'nullable_prefix', 'dyck', 'two_lists', 'unit_chain', 'closure_memo']
+    if tier != 'quick':
+        names += ['mutual_rec', 'lr1_not_lalr', 'opt_tail', 'deep_unit_nullable', 'll_pal', 'reduce_la', 'first_cycle', 'nullable_cycle2']
+    entries = []
+    for n in names:
+        entries += entries_for(cat[n], hosts=(0,), gen=False) or entries_for(cat[n], hosts=(), gen=True)
+    for n in ('err_suite', 'err_stmt', 'err_block'):
+        entries += entries_for(cat[n], hosts=(1,), gen=False)
+    L = 4 if tier == 'quick' else 5
+    odd = [0, 0x80, 0xff, ord('?'), 32, 10]
+    long_jobs = collections.defaultdict(list)
+    for e in entries:
+        ins = ws_inputs(e.g, L if len(e.g.ts) <= 2 else L - 1, odd, 500 if tier == 'quick' else 3000)
+        pipeline.add_jobs(e, ins, buf=3, verbose=True, tag='k')          # checked buffer: every dereference observed
+        pipeline.add_jobs(e, ins[::3], buf=0, verbose=False, tag='v')
+        pipeline.add_jobs(e, ins[::3], buf=1, verbose=False, tag='s')
+        for s in gengram.sentences(e.g, rng, 6 if tier == 'quick' else 25, max_len=60 if tier == 'quick' else 250):
+            pipeline.add_jobs(e, [s], buf=3, verbose=False, tag='ls')
+            if s:
+                m = list(s); m[rng.randrange(len(m))] = rng.choice(odd + [ord(c) for c in e.g.ts])
+                pipeline.add_jobs(e, [m], buf=3, verbose=False, tag='lm')
+        for _ in range(6 if tier == 'quick' else 40):                    # raw byte fuzz
+            n = rng.randint(1, 60)
+            pipeline.add_jobs(e, [[rng.choice(odd + [ord(c) for c in e.g.ts] * 3) for _ in range(n)]], buf=3, verbose=bool(rng.getrandbits(1)), tag='f')
+    res, work = prun.run(entries, 'C06', design_L=None, do_product=False, tlc_procs=4 if tier == 'quick' else 8, tlc_workers=4 if tier == 'quick' else 2)
+    domain = {e.gid for e in entries}
+    judge_traces(out, entries, res, {'oob', 'extra:oobread', 'extra:oobiter', 'extra:oobview', 'extra:oob', 'threw', 'partial-line'}, domain)
+    for gid, rc in res.crashed:
+        e = [x for x in entries if x.gid == gid][0]
+        done = {t['id'] for t in e.traces}
+        first = [j for j in e.jobs if j[0] not in done][:1]
+        out.violations.append({'summary': {'grammar': gid, 'class': 'the process died (exit %s) while parsing' % rc + (' - no result within the time budget' if rc == 124 else ''),
+                                           'input': bytes(first[0][6]).decode('latin-1') if first else None, 'buffer_kind': first[0][1] if first else None},
+                               'kind': 'parser', 'gname': e.g.name, 'mode': e.mode, 'gid': gid,
+                               'grammar': {'nts': e.g.nts, 'ts': e.g.ts, 'root': e.g.root, 'rules': e.g.rules, 'tprec': e.g.tprec, 'tassoc': e.g.tassoc},
+                               'bytes': first[0][6] if first else [], 'ws': 1, 'nl': 1, 'verbose': 0, 'stream': 0, 'buf': first[0][1] if first else 0})
+    # ---- very long and deeply nested inputs: observers only (no TLC replay of 10^5 events), through the plain and the sanitizer build
+    hostbins = pipeline.host_bins()
+    asan = vlib.build_binary('host0_asan', 'host.cpp', ('-DHOST_VARIANT=0', '-fsanitize=address,undefined', '-fno-sanitize-recover=undefined', '-D_GLIBCXX_ASSERTIONS', '-g'), cxx='clang++')
+    big = []
+    for n in ('paren', 'left_rec', 'right_rec_empty', 'expr_strat', 'dyck'):
+        if n not in cat:
+            continue
+        try:
+            e = pipeline.host_entry(cat[n], 0, gid=n + '@big')
+        except ValueError:
+            continue
+        N = 3000 if tier == 'quick' else 60000
+        g = cat[n]
+        if n == 'paren':
+            deep = [ord('(')] * N + [ord('x')] + [ord(')')] * N
+            ins = [deep, deep[:-1], [ord('(')] * N, [32] * N, []]
+        elif n == 'dyck':
+            ins = [[ord('(')] * N + [ord(')')] * N, [ord('('), ord(')')] * N, [ord(')')] * 5]
+        elif n == 'expr_strat':
+            ins = [sum([[ord('n'), ord('+')] for _ in range(N)], []) + [ord('n')], [ord('(')] * N + [ord('n')] + [ord(')')] * N, sum([[ord('n'), ord('*')] for _ in range(N)], [])]
+        else:
+            t0 = ord(g.ts[0])
+            ins = [[t0] * N, [t0, 32, 10] * N, [t0] * N + [0], [0x80] * 10]
+        for b in (0, 1, 3):
+            pipeline.add_jobs(e, ins, buf=b, verbose=False, tag='b%d_' % b)
+        big.append(e)
+    nbig = 0
+    for (label, binp, env) in (('plain', hostbins['host0'], {'VERIF_LIGHT': '1'}), ('asan+ubsan', asan, {'VERIF_LIGHT': '1', 'ASAN_OPTIONS': 'detect_leaks=0:abort_on_error=0', 'VERIF_JOB_TIMEOUT': '120'})):
+        use = big + ([e for e in entries if e.mode == 'host0'] if label != 'plain' else [])
+        recs, rc, err = pipeline.run_host_binary(binp, use, 'C06' + label.replace('+', ''), env)
+        nbig += len(recs)
+        byid = {r['id']: r for r in recs}
+        if rc != 0:
+            first = None
+            for e in use:
+                for j in e.jobs:
+                    if j[0] not in byid:
+                        first = (e, j); break
+                if first:
+                    break
+            e, j = first if first else (use[0], use[0].jobs[0])
+            out.violations.append({'summary': {'grammar': e.gid, 'class': '%s build: process ended with exit %s%s' % (label, rc, ' (no result within the time budget)' if rc == 124 else ''),
+                                               'input_prefix': bytes(j[6][:60]).decode('latin-1'), 'input_length': len(j[6]), 'buffer_kind': j[1], 'stderr': err[-600:]},
+                                   'kind': 'parser', 'gname': e.g.name, 'mode': e.mode, 'gid': e.gid,
+                                   'grammar': {'nts': e.g.nts, 'ts': e.g.ts, 'root': e.g.root, 'rules': e.g.rules, 'tprec': e.g.tprec, 'tassoc': e.g.tassoc},
+                                   'bytes': j[6] if len(j[6]) < 5000 else j[6][:5000], 'ws': 1, 'nl': 1, 'verbose': 0, 'stream': 0, 'buf': j[1]})
+        for r in recs:
+            bad = [ev for ev in r['events'] if ev[0].startswith('oob')]
+            if bad or r['threw'] or r['overflow']:
+                e = [x for x in use if x.gid == r['g']][0]
+                out.violations.append({'summary': {'grammar': r['g'], 'class': '%s build: out-of-range access / exception on a long input' % label, 'events': bad[:3], 'threw': r['threw'],
+                                                   'input_length': len(r['bytes']), 'buffer_kind': r['buf']},
+                                       'kind': 'parser', 'gname': e.g.name, 'mode': e.mode, 'gid': e.gid,
+                                       'grammar': {'nts': e.g.nts, 'ts': e.g.ts, 'root': e.g.root, 'rules': e.g.rules, 'tprec': e.g.tprec, 'tassoc': e.g.tassoc},
+                                       'bytes': r['bytes'][:5000], 'ws': 1, 'nl': 1, 'verbose': 0, 'stream': 0, 'buf': r['buf']})
+    # ---- termination of the specification itself (liveness under weak fairness, no state constraint)
+    small = [e for e in entries if e.mode in ('host0', 'host1')][:6]
+    env, _ = pipeline.tlc_inputs(small, work, 'live', with_traces=False)
+    env.pop('VERIF_DUMPS', None)
+    cfg = pipeline.write_cfg(work, 'live', 'FairSpec', ['Safe'], {'L': 3, 'WSBYTES': '{32, 63}'}, properties=['Terminates'])
+    rl = vlib.run_tlc('MCDriver', cfg, env, 'C06_live', workers=4, timeout=900)
+    if rl.exit != 0 or rl.errors:
+        raise Infra('the specification does not terminate / violates Safe (spec bug): %s\n%s' % (rl.errors[:3], rl.out[-2000:]))
+    # ---- the standalone matcher: any string, matching or not, through the checked buffer
+    pats = ['a*', '(a|b)*c', '[a-z]+[0-9]*', 'a{3}', '.', '[^a]', '\\x80+', 'ab?c', 'x', '(ab)+']
+    pjobs = []
+    for i, ptxt in enumerate(pats):
+        strs = [[], [97], [97] * 2000, [0], [0x80, 0xff], [98, 99], [97, 98, 97, 98], [120], [99]]
+        for _ in range(10 if tier == 'quick' else 100):
+            strs.append([rng.choice([97, 98, 99, 120, 48, 0, 0x80, 32]) for _ in range(rng.randint(0, 12))])
+        pjobs.append(('m%d' % i, list(ptxt.encode('latin-1').decode('unicode_escape').encode('latin-1')) if False else list(ptxt.encode('latin-1')), strs))
+    recs, crashed, _ = rxl.run_rx(pjobs, 'C06rx')
+    nmatch = 0
+    for (pid, pat, strs), r in zip(pjobs, recs):
+        if r is None:
+            out.violations.append({'summary': {'pattern': pat_text(pat), 'class': 'matcher process died'}, 'kind': 'rx', 'pattern': pat})
+            continue
+        for m in r['matches']:
+            nmatch += 1
+            if m['oob'] or m['threw']:
+                out.violations.append({'summary': {'pattern': pat_text(pat), 'string': m['s'][:40], 'class': 'regex matcher read outside the string', 'threw': m['threw']}, 'kind': 'rx', 'pattern': pat})
+    mrecs, mcrash = run_rxexpr(rng, tier)
+    for r in mrecs:
+        nmatch += 1
+        if r.get('oob') or r.get('threw'):
+            out.violations.append({'summary': {'pattern': r['pattern'], 'string': r['s'][:40], 'class': 'regex::expr::match read outside the string', 'events': r.get('events', [])[:3], 'threw': r.get('threw')},
+                                   'kind': 'rxexpr', 'pattern': r['pattern'], 'string': r['s']})
+    if mcrash:
+        out.violations.append({'summary': {'class': 'regex::expr::match crashed the process', 'detail': mcrash}, 'kind': 'rxexpr', 'pattern': '', 'string': []})
+    out.violations = out.violations[:12]
+    out.coverage = base_coverage(res, {
+        'grammars': len(entries), 'checked_buffer_parses': sum(1 for e in entries for j in e.jobs if j[1] == 3),
+        'long_or_deep_inputs_run_with_observers': nbig, 'longest_input_bytes': 3000 * 2 + 1 if tier == 'quick' else 120001,
+        'sanitizer_build': 'clang++ -fsanitize=address,undefined -D_GLIBCXX_ASSERTIONS', 'matcher_runs_observed': nmatch,
+        'spec_liveness': {'property': '<>(status # "run") under WF(Next)', 'states': rl.distinct, 'L': 3},
+        'bounds': {'L_all_inputs_over_terms_and_NUL_0x80_0xff_?_SP_LF': L},
+        'samples': sample_traces(entries, 2) + [{'long_input': 'paren: ( x N, x, ) x N', 'N': 3000 if tier == 'quick' else 60000}], 'exhaustive': False})
+    out.coverage['states'] += rl.distinct
+    out.coverage['transitions'] += rl.generated
+    out.assumptions = std_assumptions() + ['reads observed by harness checked_buffer (every operator*, iterator arithmetic and get_view)', 'library stacks/tables observed by the CTPG_VERIF cvector hook and ASan/UBSan',
+                                           'a hang is detected by a per-parse watchdog (20 s plain, 120 s sanitizer build)']
+    return out
+
+
+def run_rxexpr(rng, tier):
+    """regex::expr<P>::match (compile-time built automata) on run-time strings through checked buffers"""
+    binp = vlib.build_binary('rxexpr', 'rxexpr.cpp')
+    work = vlib.scratch('rxexpr')
+    jp = os.path.join(work, 'jobs')
+    strs = [[], [97], [98], [97, 97, 97], [97] * 500, [0], [0x80], [120, 121], [97, 98, 99], [48, 49], [97, 0, 97]]
+    for _ in range(20 if tier == 'quick' else 200):
+        strs.append([rng.choice([97, 98, 99, 120, 48, 0, 0x80, 32, 10]) for _ in range(rng.randint(0, 10))])
+    with open(jp, 'w') as f:
+        for s in strs:
+            f.write('%s\n' % (''.join('%02x' % b for b in s) or '-'))
+    op = os.path.join(work, 'out')
+    r = subprocess.run([binp, jp, op], capture_output=True, text=True, timeout=900)
+    recs = vlib.read_ndjson_lenient(op)
+    return recs, (None if r.returncode == 0 else 'exit %s: %s' % (r.returncode, r.stderr[-300:]))
 
 
 # ======================================================================================= replay
